@@ -98,3 +98,29 @@ class Verdict:
             print(f"  signature={sig} total_cases_with_signature={self.sig_seen[sig]}")
         sys.stdout.flush()
         return 1 if self.violations else 0
+
+
+class SubVerdict:
+    """Lets a cross-cutting check (C17, C18, C20, C04...) run another engine and keep only the
+    violations that concern it: ``mapper(signature)`` returns the signature under the parent's
+    property, or None to drop it (that finding belongs to the engine's own property)."""
+
+    def __init__(self, parent: Verdict, mapper, label):
+        self.parent, self.mapper, self.label = parent, mapper, label
+        self.assumptions = []
+        self.coverage_out = None
+
+    def violation(self, signature, detail):
+        new = self.mapper(signature, detail)
+        if new:
+            self.parent.violation(new, {"via_engine": self.label, "engine_signature": signature, **detail})
+
+    def sample(self, s, cap=6):
+        pass
+
+    def add_counts(self, **kw):
+        pass
+
+    def finish(self, extra_coverage=None):
+        self.coverage_out = extra_coverage or {}
+        return 0
